@@ -126,9 +126,18 @@ func c10Run(c *Ctx, v memVec) {
 			in := input(a.K)
 			tok := json.NewTokenizer(in)
 			var kept [][]byte
+			var snaps []string
 			for tok.Next() {
 				if tok.Kind().Class() == json.String {
-					kept = append(kept, tok.String())
+					b := tok.String()
+					kept = append(kept, b)
+					snaps = append(snaps, string(b)) // what was handed out, at the moment it was handed out
+				}
+			}
+			for i := range kept {
+				if string(kept[i]) != snaps[i] {
+					fail(step, "Tokenizer.String", "a result unchanged by later String calls: "+clipS(snaps[i]), clipS(string(kept[i])))
+					return
 				}
 			}
 			add(func() string { return fmt.Sprintf("%q", kept) })
